@@ -755,6 +755,17 @@ func (fr *frame) intBinop(op token.Token, a, b string, w int, signed bool, yT ty
 				return "(bvand " + a + " (bvnot " + b + "))"
 			}
 		}
+		// x & (2^k - 1) with a constant mask is x mod 2^k (two's complement), also for negative x
+		if op == token.AND {
+			for _, pr := range [][2]string{{a, b}, {b, a}} {
+				if m, ok := new(big.Int).SetString(pr[1], 10); ok && m.Sign() > 0 {
+					m1 := new(big.Int).Add(m, big.NewInt(1))
+					if m1.BitLen()-1 == int(m1.TrailingZeroBits()) { // m+1 is a power of two
+						return "(mod " + pr[0] + " " + m1.String() + ")"
+					}
+				}
+			}
+		}
 		vc.unsupported = append(vc.unsupported, "bit operation in int mode")
 		c := vc.freshConst("bitop", "Int")
 		fr.assumeTypeFactsRaw(w, signed, c)
@@ -785,6 +796,14 @@ func (fr *frame) intBinop(op token.Token, a, b string, w int, signed bool, yT ty
 				return "(ite " + big_ + " (ite (bvslt " + a + " " + zero + ") " + vc.intLit(big.NewInt(-1), w) + " " + zero + ") (bvashr " + a + " " + cnt + "))"
 			}
 			return "(ite " + big_ + " " + zero + " (bvlshr " + a + " " + cnt + "))"
+		}
+		// shift by a constant count: floor division / multiplication by a power of two
+		if cnt, ok := new(big.Int).SetString(b, 10); ok && cnt.Sign() >= 0 && cnt.Int64() < int64(w) {
+			p := pow2(int(cnt.Int64())).String()
+			if op == token.SHR {
+				return "(div " + a + " " + p + ")"
+			}
+			return fr.wrap("(* "+a+" "+p+")", w, signed)
 		}
 		vc.unsupported = append(vc.unsupported, "shift in int mode")
 		c := vc.freshConst("shift", "Int")
@@ -1093,12 +1112,12 @@ func (fr *frame) indexAddr(x *ssa.IndexAddr, st *State, g string) {
 	switch t := x.X.Type().Underlying().(type) {
 	case *types.Slice:
 		fr.hazard("idx", g, fmt.Sprintf("(and (<= 0 %s) (< %s (s_len %s)))", i, i, a), x.Pos(), "slice index in range")
-		fr.set(x, fmt.Sprintf("(ea (s_arr %s) (+ (s_off %s) %s))", a, a, i))
+		fr.set(x, vc.ea("(s_arr "+a+")", "(+ (s_off "+a+") "+i+")"))
 	case *types.Pointer: // pointer to array
 		arr := t.Elem().Underlying().(*types.Array)
 		fr.hazard("nil", g, "(not (= "+a+" 0))", x.Pos(), "index of nil array pointer")
 		fr.hazard("idx", g, fmt.Sprintf("(and (<= 0 %s) (< %s %d))", i, i, arr.Len()), x.Pos(), "array index in range")
-		fr.set(x, fmt.Sprintf("(ea %s %s)", a, i))
+		fr.set(x, vc.ea(a, i))
 	default:
 		vc.unsupported = append(vc.unsupported, "IndexAddr on "+x.X.Type().String())
 		fr.havocVal(x, "indexaddr")
@@ -1248,6 +1267,7 @@ func (fr *frame) zeroElems(st *State, r string, et types.Type) {
 	}
 	c := vc.className(et)
 	h := vc.heapOf(st, c)
+	vc.needEAQuant()
 	vc.assume(fmt.Sprintf("(forall ((i Int)) (! (= (select %s (ea %s i)) %s) :pattern ((select %s (ea %s i)))))", h, r, vc.zero(et), h, r))
 }
 
